@@ -91,7 +91,14 @@ func (c *Ctx) checkTagWrites() {
 			}
 		})
 		if comparesOld {
-			gEmpty = core.Guard{Name: "len(tags)==0 (not exempt: old tags exist)", Match: func(a core.CondAtom) (bool, bool) { return false, false }}
+			// `tags == nil` (the request carries no tags: nothing changes) stays exempt; `len(tags) == 0`
+			// (an explicitly empty list) does not
+			gEmpty = core.Guard{Name: "tags==nil", Match: func(a core.CondAtom) (bool, bool) {
+				if a.Op == token.EQL && core.IsNil(a.Y) && core.Derives(a.X, isNorm, false) {
+					return true, true
+				}
+				return false, false
+			}}
 		}
 		for i, s := range sinks {
 			// a merged value (phi with the no-tags case): the guard must hold on the edges that carry
